@@ -131,6 +131,13 @@ class Interp(object):
                         # the consumer's "fall" means: resume the generator
                         res.append(o)
                 return res
+            c0 = unawait(s.value)
+            if isinstance(c0, ast.Call):
+                r0 = c0.func
+                while isinstance(r0, ast.Attribute):
+                    r0 = r0.value
+                if isinstance(r0, ast.Name) and r0.id in ("_LOGGER", "logging", "logger", "_LOG", "warnings"):
+                    return [Out("fall", st)]          # logging has no effect on the store
             return [Out("fall", st2) if not isinstance(v, tuple) or v[0] != "RAISE" else Out("raise", st2, v) for st2, v in self.ev(s.value, st, f)]
         if isinstance(s, ast.Pass):
             return [Out("fall", st)]
